@@ -66,8 +66,8 @@ public:
     }
     void globalInit() override { if (prop != "C18" && !inited) { XMLPlatformUtils::Initialize(XMLUni::fgXercescDefaultLocale, 0, 0, new CachingGlobalMM()); inited = true; } }
     uint64_t defaultRuns(const std::string& tier) const override {
-        if (prop == "C18") return tier == "quick" ? 5000 : 100000;
-        return tier == "quick" ? 30000 : 600000;
+        if (prop == "C18") return tier == "quick" ? 15000 : 200000;
+        return tier == "quick" ? 150000 : 2000000;
     }
     Json generate(uint64_t seed, uint64_t index, const std::string& tier) override { return prop == "C18" ? genC18(seed, index, tier) : genC15(seed, index, tier); }
     Outcome execute(const Json& plan) override {
